@@ -15,6 +15,7 @@ Clauses(ev) ==
       [] ev.e = "partassign" -> PartAssignViol(ev.s, ev.L, ev.t) \cup Tag(PartitionViol(ev.t, ev.boneLimit), "parts")
       [] ev.e = "setget" -> SetGetViol(ev.s, ev.attr, ev.given, ev.t)
       [] ev.e = "reloadsame" -> SameAfterReloadViol(ev.t, ev.r)
+      [] ev.e = "reloadfirst" -> FirstReloadViol(ev.t, ev.r, ev.written)
       [] ev.e = "limit" -> IF ~ev.withinLimits THEN {}
                            ELSE V(ev.got = ev.given, "CreatedShapeReadsBackWhatWasGiven")
                                 \cup V(ev.reloaded /\ ev.r = ev.given, "ReadsBackAfterReload")
